@@ -34,7 +34,8 @@ RULE = ('cases: (aranges) Coq-encoded tables of 0..6 sets, address size 4/8 mixe
         'non-ASCII UTF-8, empty and duplicate names, present and absent queries through [], get, iter, items, len, get_cu_headers; '
         '(units) 1..6 synthesized units (v2-v5, 32/64-bit, all six v5 unit types) queried at EVERY offset 0..size-1 in random order '
         'interleaved with get_CU_at at unit starts and get_DIE_from_lut_entry, plus all histories up to length 3 over six probes on a '
-        'fixed 3-unit section, each followed by the full sweep.  distinct = hash(kind, abstract); non-trivial = at least one '
+        'fixed 3-unit section, each followed by the full sweep; one (thorough: four) section of 1500..3000 equal minimal units queried cold '
+        'at a high offset and the last byte, then downwards (walk depth).  distinct = hash(kind, abstract); non-trivial = at least one '
         'tuple/name/two units, or an empty-table / error case')
 
 K_EMPTY = 'cu_offset_at_addr-empty-table-IndexError'
@@ -346,6 +347,25 @@ def gen(ctx):
             tail = list(sweep)
             rng.shuffle(tail)
             cases.append(('units_history', [True, fixed, [list(o) for o in h] + tail[:40 if L == maxlen else len(tail)]]))
+    # depth: thousands of equal minimal units (header + one abbreviated DIE), queried COLD at a high offset, at the last byte,
+    # then downwards: the walk of get_CU_containing must pass every unit below the target whatever their number
+    for i in range(ctx.scale(1, 4)):
+        u = _gen_unit(rng)
+        u[7] = bytes([rng.choice([1, 2, 3])])                 # one DIE, one byte
+        n = rng.randint(1500, 3000)
+        U, hdr = _unit_size(u)
+        size = n * U
+        first = [size - 1 - rng.randrange(size // 8), size - 1] if i % 2 == 0 else [size - 1, size - 1 - rng.randrange(size // 8)]
+        ops = [['containing', r] for r in first]
+        ks = sorted({rng.randrange(n) for _ in range(10)} | {0, 1, n - 1, n - 2}, reverse=True)
+        for k in ks:
+            ops.append(['containing', k * U + rng.randrange(U)])
+            if rng.random() < 0.3:
+                ops.append(['at', k * U])
+            if rng.random() < 0.2:
+                ops.append(['die', k * U, k * U + hdr])
+        ops += [['containing', 0], ['containing', size - 1], ['containing', size], ['containing', rng.randrange(size)]]
+        cases.append(('units_many', [rng.random() < 0.7, u, n, ops]))
     # out of domain: offset-exact lookups at arbitrary offsets (garbage units enter the cache)
     for i in range(10 * T):
         units = [_gen_unit(rng) for _ in range(rng.choice([2, 3]))]
@@ -462,6 +482,8 @@ def evaluate(ctx, cases):
                      ['wf_names', a[2] if kind == 'names_table' else a[1]], ['wf_names', []]]
         elif kind == 'units_history':
             reqs += [['enc_units', a[0], a[1]], ['wf_units', a[1]], ['units_spec', a[1]]]
+        elif kind == 'units_many':        # n copies of one unit; the starts are multiples of its size
+            reqs += [['enc_units', a[0], [a[1]] * a[2]], ['wf_units', [a[1]]], ['units_spec', [a[1]]]]
         else:
             raise ValueError(kind)
     ans = drv.batch(reqs)
@@ -487,6 +509,11 @@ def evaluate(ctx, cases):
         elif kind == 'units_history':
             w['starts'] = [c[0] for c in third]
             reqs2 += [['di_run', a[0], data, len(data), a[2]], ['di_spec', a[0], a[1], a[2]]]
+        elif kind == 'units_many':
+            U = _unit_size(a[1])[0]
+            assert len(data) == a[2] * U
+            w['starts'] = range(0, a[2] * U, U)
+            reqs2 += [['di_run', a[0], data, len(data), a[3]], ['di_spec', a[0], [a[1]] * a[2], a[3]]]
         work.append(w)
     ans2 = drv.batch(reqs2)
     for i, ((kind, a), w) in enumerate(zip(cases, work)):
@@ -549,15 +576,17 @@ def evaluate(ctx, cases):
         elif kind == 'names_trunc':
             impl = _impl_names(a[0], 'pubnames', data, [], addr_size)
             ctx.record(kind, a, impl=impl, spec=model, model=model, in_domain=False, nontrivial=True)
-        elif kind == 'units_history':
-            impl = _impl_history(a[0], data, a[2], addr_size)
+        elif kind in ('units_history', 'units_many'):
+            ops = a[2] if kind == 'units_history' else a[3]
+            nunits = len(a[1]) if kind == 'units_history' else a[2]
+            impl = _impl_history(a[0], data, ops, addr_size)
             starts = set(w['starts'])
-            valid = all(op[0] == 'containing' or op[1] in starts for op in a[2])
+            valid = all(op[0] == 'containing' or op[1] in starts for op in ops)
             for j, (x, y) in enumerate(zip(impl, spec)):
                 if x != y:
-                    key = 'units:' + a[2][j][0]
+                    key = 'units:' + ops[j][0]
                     break
-            ctx.bump('units', len(a[1]))
-            ctx.bump('history_len', len(a[2]) if len(a[2]) < 10 else '%d0+' % (len(a[2]) // 10))
+            ctx.bump('units', nunits if nunits < 10 else '1000+' if nunits >= 1000 else '10+')
+            ctx.bump('history_len', len(ops) if len(ops) < 10 else '%d0+' % (len(ops) // 10))
             ctx.record(kind, a, impl=impl, spec=spec, model=model, in_domain=w['wf'] and valid,
-                       nontrivial=len(a[1]) >= 2 or len(a[2]) > 4, key=key)
+                       nontrivial=nunits >= 2 or len(ops) > 4, key=key)
